@@ -29,7 +29,7 @@ def bounds(tier):
             "long vectors": "all multisets over {4,7} with " + ("8,15,16,17,24" if q else "8,12,15,16,17,20,24,31,32,33,40,64,65") + " entries, over {0,1,2} and {1,5,9} up to " + ("17" if q else "24") + " entries, in ascending, descending and riffled order",
             "big": "{0, 1, 2**31+1, 2**32+3, 2**50+1}^k, k<=4",
             "in place": f"one list / one array object walked through {{0..3}}^k, k<={4 if q else 5}, by single-entry mutations, objective objects reused, every evaluation twice",
-            "histories": "every sequence of <=3 calls (value_to_minimize on 8 vectors of 1..6 entries, sorted fast path, lower_bound on 6 vectors x 2 totals) on one object of each of 11 objectives, then all 8 vectors evaluated"}
+            "histories": "every sequence of <=3 calls (value_to_minimize on 8 vectors of 1..6 entries given as list, as float array and (3 of them) as tuple, sorted fast path, lower_bound on 6 vectors x 2 totals: 33 operations) on one object of each of 11 objectives, then all 8 vectors evaluated as lists and 4 as arrays"}
 
 
 CLOSE_WEIGHTS = ((1 / 3, 2 / 3), (0.33, 0.67), (0.333, 0.667), (0.334, 0.666), (0.004, 0.001), (0.001, 0.004), (0.0049, 0.0011), (2.0, 1.0), (2.004, 1.004))
@@ -82,7 +82,8 @@ def _history(acc, idx):
     spec = _hist_objects()[idx]
     f = dict(_defs(4))[spec]
     ops = [("v", v, fl) for v in HIST_VECS for fl in (False,)] + [("v", tuple(sorted(v)), True) for v in HIST_VECS[4:6]] + \
-          [("lb", v, rem) for v in HIST_VECS[:6] for rem in (0, 10)]
+          [("lb", v, rem) for v in HIST_VECS[:6] for rem in (0, 10)] + \
+          [("va", v, None) for v in HIST_VECS] + [("vt", v, None) for v in HIST_VECS[:5:2]]    # arrays / tuples, flag left to its default
     for depth in (1, 2, 3):
         for seq in product(range(len(ops)), repeat=depth):
             o = repo.objective(spec)
@@ -91,14 +92,18 @@ def _history(acc, idx):
                 try:
                     if kind == "v":
                         o.value_to_minimize(list(v), are_sums_in_ascending_order=extra)
+                    elif kind == "va":
+                        o.value_to_minimize(np.array(v, dtype=float))
+                    elif kind == "vt":
+                        o.value_to_minimize(tuple(v))
                     else:
                         o.lower_bound(list(v), extra, are_sums_in_ascending_order=False)
                     acc.ran("objective")
                 except Exception:
                     pass
             acc.point(nontrivial=(depth > 1))
-            for v in HIST_VECS:
-                got = _val(o, list(v), None)
+            for v, mk in [(v, list) for v in HIST_VECS] + [(v, lambda x: np.array(x, dtype=float)) for v in HIST_VECS[::2]]:
+                got = _val(o, mk(v), None)
                 acc.ran("objective")
                 want = float(f(list(v)))
                 if got != want:
